@@ -149,6 +149,7 @@ func init() {
 			{"no-element-cache", "no Document field other than Body points at body elements", ruleNoElementCache},
 			{"marshal-pure", "serialising does not modify the model (mutation summaries + append into a reslice of the receiver)", ruleMarshalPure},
 			{"sectpr-singleton", "a section-properties element is appended to the body only after all elements were searched for an existing one", ruleSectPrSingleton},
+			{"index-range-exact", "removal by element index tests the index against 0 and len(Body.Elements) only (no adjusted bound)", ruleIndexRangeExact},
 			{"remove-typed", "RemoveParagraph* splice the body only at a position where a *Paragraph was found (ok-branch of the type assertion on that element, through finder helpers)", ruleRemoveTyped},
 		},
 		Assumptions: commonAssumptions,
@@ -167,6 +168,7 @@ func init() {
 			{"prefix-append", "no append of new elements to a prefix of a slice whose tail is still needed", rulePrefixAppend},
 			{"grid-bound", "index and slice bounds on t.Grid.Cols follow from the dominating comparisons (difference-bound proof per use)", ruleGridBound},
 			{"col-all-rows", "column insertions/deletions rewrite every row (no skipping iteration in the loop over t.Rows)", ruleColAllRows},
+			{"delete-content-pure", "row/column deletions never store into the paragraphs or nested tables of a remaining cell", ruleDeleteContentPure},
 		},
 		Assumptions: commonAssumptions,
 	}
@@ -198,6 +200,7 @@ func init() {
 			{"keyed-insert", "find-or-replace before append on keyed collections", func(r *Run) { ruleKeyedInsert(r, nil) }},
 			{"kind-injective", "getFileNameForType maps kinds to distinct constants", ruleKindInjective},
 			{"ref-flow", "reference id = relationship id", ruleRefFlowHF},
+			{"rel-attach (header/footer)", "every header/footer relationship the Add* calls create is added to the document's relationship list on every path and targets the part written in the same call", filtered(ruleRelAttach, ":header", ":footer")},
 			{"clone-alias", "rendered documents do not share header/footer reference objects with the template", ruleCloneAliasFor("SectionProperties", "HeaderFooterReference", "FooterReference")},
 			{"alloc-scans-all", "the relationship id allocator's scanning loop has no early exit", ruleAllocScansAll},
 			{"alloc-append-atomic", "between taking a relationship id from the allocator and adding the relationship that carries it, nothing runs that can add another relationship (which would be given the same id)", ruleAllocAppendAtomic},
